@@ -40,6 +40,25 @@ static SCHED: Mutex<S> = Mutex::new(S {
     points: 0,
 });
 static CV: Condvar = Condvar::new();
+/// one condition variable per participating thread: handing over the baton wakes exactly one thread
+#[allow(clippy::declare_interior_mutable_const)]
+const CV_INIT: Condvar = Condvar::new();
+static CVS: [Condvar; 64] = [CV_INIT; 64];
+
+fn wake(s: &S) {
+    match s.current {
+        Some(t) if t < 64 => CVS[t].notify_one(),
+        _ => {}
+    }
+    CV.notify_all(); // the harness thread waiting in start()
+}
+
+fn wait_turn(mut s: std::sync::MutexGuard<'static, S>, tid: usize) -> std::sync::MutexGuard<'static, S> {
+    while s.current != Some(tid) {
+        s = if tid < 64 { CVS[tid].wait(s) } else { CV.wait(s) }.unwrap_or_else(|e| e.into_inner());
+    }
+    s
+}
 
 thread_local! {
     static TID: Cell<usize> = const { Cell::new(usize::MAX) };
@@ -89,9 +108,7 @@ pub fn enter(tid: usize) {
     let mut s = lock();
     s.threads[tid] = T::Waiting;
     CV.notify_all();
-    while s.current != Some(tid) {
-        s = CV.wait(s).unwrap_or_else(|e| e.into_inner());
-    }
+    let _s = wait_turn(s, tid);
 }
 
 /// Called by the harness after spawning: waits until every thread has arrived, then hands out the baton.
@@ -102,7 +119,7 @@ pub fn start() {
     }
     let c = choose(&mut s);
     s.current = c;
-    CV.notify_all();
+    wake(&s);
 }
 
 /// Scheduling point (called from the interposers). No-op for non-participating threads.
@@ -118,10 +135,11 @@ pub fn point() {
     s.points += 1;
     let c = choose(&mut s);
     s.current = c;
-    CV.notify_all();
-    while s.current != Some(tid) {
-        s = CV.wait(s).unwrap_or_else(|e| e.into_inner());
+    if c == Some(tid) {
+        return;
     }
+    wake(&s);
+    let _s = wait_turn(s, tid);
 }
 
 /// Called last thing by each participating thread.
@@ -135,7 +153,7 @@ pub fn leave() {
     s.threads[tid] = T::Done;
     let c = choose(&mut s);
     s.current = c;
-    CV.notify_all();
+    wake(&s);
 }
 
 /// End the section; returns (choice trace, number of scheduling points).
